@@ -489,6 +489,12 @@ def _ffill_block(x, axis=0, dtype=None):
 
 
 def _last_valid(x, axis=0, keepdims=True):
+    x = np.asarray(x, dtype=float)
+    if x.shape[axis] == 0:
+        # like np.sum on an empty block: the identity of the merge (NaN = "nothing valid yet"), keepdims
+        shp = list(x.shape)
+        shp[axis] = 1
+        return np.full(shp, np.nan)
     f = _ffill_block(x, axis=axis)
     idx = [slice(None)] * f.ndim
     idx[axis] = slice(-1, None)
@@ -687,11 +693,12 @@ def search(ctx):
                 base = {"kind": "swv", "shape": [n], "chunks": [list(cks)], "window": [w], "axis": [0], "dseed": k}
                 native = SW.supports_native_sliding_window(cks, w)
                 cc = chunk_class((cks,), 0, w)
-                reds = [None] + (REDS if ctx.tier == "thorough" else [REDS[k % 5], REDS[(k // 5 + 1 + k) % 5]])
+                reds = [None] + (REDS if ctx.tier == "thorough" else [REDS[(k + k // 5) % 5]])
                 for red in reds:
                     run(dict(base, reducer=red, dtype="int"), (red, native) + cc)
-                nr = NANREDS[k % 5]
-                run(dict(base, reducer=nr, dtype="float", nan=0.3), (nr, native) + cc)
+                if ctx.tier == "thorough" or k % 2 == 0:
+                    nr = NANREDS[(k // 2) % 5]
+                    run(dict(base, reducer=nr, dtype="float", nan=0.3), (nr, native) + cc)
                 if k % 7 == 0:
                     run(dict(base, reducer=rng.choice(["any", "all"]), dtype="bool"), ("anyall", native) + cc)
                 if k % 5 == 0:
@@ -975,7 +982,13 @@ def run(ctx, replay=None):
             ctx.count(("replay", r))
             ctx.notes["replay_outcome"] = r
             return
+    import time
+
+    t0 = time.time()
     correspondence(ctx)
+    ctx.notes["t.correspondence_s"] = round(time.time() - t0, 1)
+    t0 = time.time()
     search(ctx)
+    ctx.notes["t.search_s"] = round(time.time() - t0, 1)
     if ctx.disagreements:
         targeted(ctx)
